@@ -247,7 +247,8 @@ pub fn exchange(port: u16, frames: &[Frame], seg: &[usize], sentinel: bool, wait
     };
     let mut delivered = true;
     for ch in cut(&bytes, seg) {
-        if !c.send_chunk(&ch, Duration::from_millis(wait_ms)) {
+        // (once the server has stopped taking input - it closed the connection - there is nothing to wait for)
+        if !c.send_chunk(&ch, Duration::from_millis(if delivered { wait_ms } else { 1 })) {
             delivered = false;
         }
     }
@@ -430,7 +431,7 @@ pub fn run_cut_universe(srv: &Server, bytes: &[u8], seg: &[usize], u: usize, com
     };
     let mut delivered = true;
     for ch in cut(bytes, seg) {
-        if !c.send_chunk(&ch, Duration::from_millis(60)) {
+        if !c.send_chunk(&ch, Duration::from_millis(if delivered { 60 } else { 1 })) {
             delivered = false;
         }
     }
